@@ -601,6 +601,17 @@ def playback(spec, res, work):
             failed_natively = ("test result: FAILED" in out2) or ("panicked at" in out2 and "test result: ok" not in out2)
             reproduced.append((t, failed_natively))
         write(logp, out + "\n\n=== native playback ===\n" + "\n".join(outputs))
+        if not any(r for _, r in reproduced) and res.stubbed and "VERIFICATION:- FAILED" in out:
+            # the harness replaces a std function by a stub (virtual clock, format): the native build runs the
+            # real function instead, so a native pass says nothing; cargo kani's own run confirmed the failure
+            return {
+                "reproduced": "solver-only",
+                "why": "harness uses #[kani::stub]: the native run executes the real function instead of the stub and cannot observe the violation; confirmed by cargo kani's own run",
+                "tests": reproduced,
+                "test_src": gen_src,
+                "native_output": outputs,
+                "log": logp,
+            }
         return {
             "reproduced": any(r for _, r in reproduced),
             "tests": reproduced,
